@@ -31,6 +31,12 @@ def streams(tier, rng, P, only=None, cases=None):
         for j, (prog, _) in enumerate(fixed):
             src = mml.pr(prog)
             cs.append(dict(req="run " + hx(src), src=src, show=src, sexp=mml.sexp(prog), key="fixed%d" % j))
+        # gate sweep: every (length in ticks, gate rate) pair of a dense grid sounds for the truncated exact product len*q/100
+        for g in range(1, 151 if big else 101):
+            for lo in range(1, 1201 if big else 501, 100):
+                prog = [('q', g)] + [('note', 'c', 0, False, ((True, L, 0), []), None, None, None, None) for L in range(lo, lo + 100)]
+                src = mml.pr(prog)
+                cs.append(dict(req="run " + hx(src), src=src, show=src, sexp=mml.sexp(prog), key="gate%d-%d" % (g, lo), prog=prog))
         return cs
     def model(c, st, f):
         if st != "ok": return []
